@@ -30,10 +30,9 @@ Fixpoint chain_events (fs : list fscript) (target : list str) : list str :=
 Definition structural_event (e : str) : bool :=
   has_prefix e (L "pre:") || has_prefix e (L "post:") || has_prefix e (L "H:").
 
-(* a handler event names the route function only: what it sees of the request is compared
-   between model and implementation, the ORDER is what this predicate is about *)
-Definition strip_event (e : str) : str :=
-  if has_prefix e (L "H:") then match index_char e space with Some i => firstn i e | None => e end else e.
+(* the handler logs its identity ("H:<id>") and, separately, what it sees of the request
+   ("saw:<selected route path> <parameters>"): the latter is not structural *)
+Definition strip_event (e : str) : str := e.
 
 Definition expected_events (cfg : dcfg) (req : request) : list str :=
   match route_request O (d_table cfg) req with
